@@ -244,9 +244,20 @@ func init() {
 					}
 				}
 				for _, use := range []string{"c[" + v + "]++", "del c[" + v + "]", "c[$1] = " + v, "g = 1 + " + v, v + " =~ /2/ {\n    g = 2\n  }", v + " !~ /2/ {\n    g = 3\n  }",
-					"$1 =~ " + v + " {\n    g = 4\n  }", v + " > 1 {\n    g = 5\n  }", v + " {\n    g = 6\n  }", "g = " + v, "t = " + v, v + " || $1 > 3 {\n    g = 7\n  }", "del c[$1] after " + v} {
+					"$1 =~ " + v + " {\n    g = 4\n  }", v + " > 1 {\n    g = 5\n  }", v + " {\n    g = 6\n  }", "g = " + v, "t = " + v, v + " || $1 > 3 {\n    g = 7\n  }", "del c[$1] after " + v,
+					// under the unary operator, and as the text of a match where the capture-group
+					// clash that rejects it elsewhere is switched off
+					"~" + v + " {\n    g = 8\n  }", "g = ~" + v, "$1 > 0 && ~" + v + " {\n    g = 9\n  }",
+					"t = subst(\"a\", \"b\", " + v + " =~ /y/)", "t = subst(/a/, \"b\", " + v + " !~ /y/)"} {
 					g.emit(vmCase{"-", head + use + "\n}\n", []string{"2020", "7", "x"}}.fields()...)
 				}
+			}
+			// strings whose type is inferred (a dimensioned text metric, a builtin's result), compared
+			// with strings that look like numbers and with ones that do not
+			shead := "counter c\ntext tt by k\ntext t\n/^(\\S+) (\\S+)$/ {\n  tt[$1] = $1\n  t = $2\n  "
+			for _, cmp := range []string{"tt[$1] == $2", "tt[$1] != $2", "tt[$1] < $2", "tolower($1) == \"1\"", "tolower($1) == $2", "subst(\"a\", \"b\", $1) >= $2",
+				"tt[$1] == t", "t == tolower($2)", "tt[$1] == tt[$1]"} {
+				g.emit(vmCase{"-", shead + cmp + " {\n    c++\n  }\n}\n", []string{"5 abc", "1.0 1", "abc 5", "1 1.0", "x x", "07 7"}}.fields()...)
 			}
 		},
 		run: c04Run,
